@@ -2292,6 +2292,21 @@ static void EnterSymbol(PSymbolEntry Neu, Boolean MayChange, LongInt ResHandle) 
             free(Lauf);
         }
     }
+
+    /* A symbol that is new in this section and hides one of the same name in
+       an enclosing section: references that came before this definition were
+       bound to the outer symbol, so one more pass is needed to bind them here. */
+
+    if ((PassNo <= MaxSymPass) && SectionStack && (Neu->Tree.Attribute == MomSectionHandle)
+        && !SearchTree(&(FirstSymbol->Tree), Neu->Tree.Name, MomSectionHandle)) {
+        for (RunSect = SectionStack; RunSect; RunSect = RunSect->Next) {
+            if (SearchTree(&(FirstSymbol->Tree), Neu->Tree.Name, RunSect->Handle)) {
+                Repass = True;
+                break;
+            }
+        }
+    }
+
     EnterTree(&TreeRoot, &(Neu->Tree), SymbolAdder, &EnterStruct);
     FirstSymbol = (PSymbolEntry)TreeRoot;
 }
